@@ -208,6 +208,13 @@ func runFrames(raw json.RawMessage, seed int64, rec *Rec) {
 			wire = append(wire, refcodec.Envelope(byte(f.Flag), payloads[i])...)
 		}
 	}
+	if s.Status != 0 && !s.Bomb {
+		// a non-200 unary Connect response: the body is the error document (whatever the frames say), complete
+		wire = []byte(`{"code":"not_found","message":"a message long enough to arrive in several reads","details":[]}`)
+		s.Cut, s.Concrete = len(wire)+1, true
+		s.Frames = s.Frames[:1]
+		s.Frames[0].Len, s.Frames[0].Ilen = len(wire), len(wire)
+	}
 	if !s.Concrete {
 		s.Cut = mapCut(absLens, concLens, s.Cut, pre)
 	}
@@ -240,6 +247,9 @@ func runFrames(raw json.RawMessage, seed int64, rec *Rec) {
 	}
 	if s.Status != 0 {
 		sc["status"] = s.Status
+	}
+	if s.DoErr {
+		sc["doerr"] = true
 	}
 	scn := map[string]any{"script": s.Script, "eofwith": s.EofWith, "seed": seed}
 	for k, v := range sc {
